@@ -1471,7 +1471,7 @@ func validKind(kind int64) bool { return 0 <= kind && kind <= 65535 }
 func validTag(tag Tag) bool { return len(tag) >= 1 && tag[0] != "" }
 
 func validNaddr(naddr string) (ok bool) {
-	elems := strings.Split(naddr, ":")
+	elems := strings.SplitN(naddr, ":", 3)
 	if len(elems) != 3 {
 		return
 	}
